@@ -72,7 +72,14 @@ impl C03 {
 	/// input key ids of a deal, as far as the simulator knows them
 	fn deal_inputs(run: &Run, d: usize, snap: &Snap) -> BTreeSet<String> {
 		let deal = &run.model.deals[d];
-		let mut s: BTreeSet<String> = deal.inputs.iter().map(|(k, _)| k.clone()).collect();
+		// what was reserved when the reservation step succeeded; before any
+		// reservation, what the context selected
+		let src = if deal.locked && !deal.reserved.is_empty() {
+			&deal.reserved
+		} else {
+			&deal.inputs
+		};
+		let mut s: BTreeSet<String> = src.iter().map(|(k, _)| k.clone()).collect();
 		if s.is_empty() {
 			if let Some(tx) = &deal.tx {
 				let ins = crate::chain::commits_in(tx);
@@ -293,7 +300,10 @@ impl Prop for C03 {
 				if deal.payer != Some(w) || deal.cancelled_by.contains(&w) {
 					continue;
 				}
-				if !(deal.locked || deal.finalized) {
+				// reserved by this wallet: locked, or (send flow) finalized, which implies a
+				// reservation. An invoice the payee finalized although the payer never
+				// ran the reservation step reserved nothing in the payer's wallet.
+				if !(deal.locked || (deal.kind == DealKind::Send && deal.finalized)) {
 					continue;
 				}
 				for k in Self::deal_inputs(run, d, &snap) {
